@@ -507,6 +507,44 @@ func init() {
 			merges := callsOf(fn, "mergeTermFreqNormLocs")
 			fins := callsOf(fn, "finishTerm")
 			preps := callsOf(fn, "prepareNewTerm")
+			// by role when the names are gone (a function turned into a method of a state
+			// struct): the finisher is what writes the term's postings and inserts it into the
+			// dictionary under construction, the preparer what derives the chunk size, the
+			// merger what re-encodes the postings
+			byRole := func(marker string, also string) []*ssa.Call {
+				var out []*ssa.Call
+				for _, b := range fn.Blocks {
+					for _, ins := range b.Instrs {
+						call, ok := ins.(*ssa.Call)
+						if !ok {
+							continue
+						}
+						sc := call.Call.StaticCallee()
+						if sc == nil || !c.inRoot(sc) || sc.Blocks == nil {
+							continue
+						}
+						if recv := sc.Signature.Recv(); recv != nil && namedOf(recv.Type()) != nil {
+							switch namedOf(recv.Type()).Obj().Name() {
+							case "interim", "PostingsList", "chunkedIntCoder", "Dictionary":
+								continue
+							}
+						}
+						if len(callsOfName(sc, marker)) > 0 && (also == "" || len(callsOfName(sc, also)) > 0) {
+							out = append(out, call)
+						}
+					}
+				}
+				return out
+			}
+			if len(fins) == 0 {
+				fins = byRole("writePostings", "Insert")
+			}
+			if len(preps) == 0 {
+				preps = byRole("getChunkSize", "")
+			}
+			if len(merges) == 0 {
+				merges = byRole("encodeFreqHasLocs", "")
+			}
 			if len(merges) != 1 || len(preps) == 0 || len(fins) == 0 {
 				r.undecided(fnName(fn)+"/term-loop", fnName(fn), c.pos(fn.Pos()), "term loop calls not found")
 				return
@@ -606,6 +644,26 @@ func init() {
 			check(fnName(fn)+"/finish-on-change", "finishTerm", blocksOf(fins), []uint{0, 2}, "when the term differs from the previous one")
 			check(fnName(fn)+"/prepare-on-change", "prepareNewTerm", blocksOf(preps), []uint{0, 2}, "when the term differs from the previous one")
 			check(fnName(fn)+"/prepare-first", "prepareNewTerm", blocksOf(preps), []uint{2, 3}, "for the first term of a field")
+			// and the reverse: while the term is the same as the previous one - the same term coming
+			// from the next segment, including the empty term, after which the remembered term is
+			// still nil - the term in progress is not finished (its postings so far would be written
+			// and the dictionary entry overwritten by the rest)
+			{
+				key := fnName(fn) + "/no-finish-within-term"
+				bad := ""
+				for _, asg := range []uint{1, 3} {
+					for fb := range blocksOf(fins) {
+						if (fb == start || be.pathAvoiding(start, fb, map[*ssa.BasicBlock]bool{}, asg)) && (fb == target || be.pathAvoiding(fb, target, map[*ssa.BasicBlock]bool{}, asg)) {
+							bad = "finishTerm can run although the term is the same as the previous one (" + describeAsg([]string{"term == previous", "previous == nil"}, asg) + "): the postings collected so far for the term are written out and the rest of the term overwrites its dictionary entry"
+						}
+					}
+				}
+				if bad != "" {
+					r.bad(key, fnName(fn), c.pos(merges[0].Pos()), bad)
+				} else {
+					r.ok(key, fnName(fn), c.pos(merges[0].Pos()), "finishTerm never runs between the postings of one term")
+				}
+			}
 			// after the loop: the last term is finished on the successful path
 			okLast := false
 			for _, f := range fins {
@@ -1130,6 +1188,44 @@ func init() {
 			for _, fn := range c.srcFns {
 				for _, b := range fn.Blocks {
 					for _, ins := range b.Instrs {
+						// x[:len(x)-k] of a table kept in a Segment (tables of a loaded segment are empty
+						// when the section they come from is absent: zero documents)
+						if sl, isSl := ins.(*ssa.Slice); isSl && sl.High != nil {
+							if hb, ok := stripConv(sl.High).(*ssa.BinOp); ok && hb.Op == token.SUB {
+								x, name, okLen := lenOrCapOf(hb.X)
+								k, okK := constInt(hb.Y)
+								if okLen && name == "len" && okK && k >= 1 && x == sl.X && strings.Contains(accessPath(sl.X), ".") && segmentHeld(sl.X) {
+									key := fnName(fn) + "/len-minus-" + stableName(sl.X)
+									guarded := false
+									for d := b; d != nil && !guarded; d = d.Idom() {
+										idom := d.Idom()
+										if idom == nil {
+											break
+										}
+										ifi, ok := idom.Instrs[len(idom.Instrs)-1].(*ssa.If)
+										if !ok || len(d.Preds) != 1 {
+											continue
+										}
+										if bin, ok := ifi.Cond.(*ssa.BinOp); ok {
+											for _, side := range []ssa.Value{bin.X, bin.Y} {
+												if y, nm, ok := lenOrCapOf(side); ok && nm == "len" && accessPath(y) == accessPath(sl.X) {
+													guarded = true
+												}
+												if strings.HasSuffix(exprSig(stripConv(side), 0), ".numDocs") {
+													guarded = true
+												}
+											}
+										}
+									}
+									if guarded {
+										r.ok(key, fnName(fn), c.pos(sl.Pos()), "a dominating test of the table's length (or of the document count, without which the table is not loaded) guards len-"+fmt.Sprint(k))
+									} else {
+										r.bad(key, fnName(fn), c.pos(sl.Pos()), fmt.Sprintf("%s[:len-%d] without a test that the table is not empty: a segment loaded from a file with zero documents has no such table and this slices out of range", exprSig(sl.X, 0), k))
+									}
+								}
+							}
+							continue
+						}
 						ia, ok := ins.(*ssa.IndexAddr)
 						if !ok {
 							continue
@@ -1696,4 +1792,18 @@ func returnsRestarted(c *Ctx, fn *ssa.Function) bool {
 		}
 	}
 	return nres > 0
+}
+
+// segmentHeld: v is (a copy of) a slice field of a Segment.
+func segmentHeld(v ssa.Value) bool {
+	ld, ok := v.(*ssa.UnOp)
+	if !ok || ld.Op != token.MUL {
+		return false
+	}
+	fa, ok := ld.X.(*ssa.FieldAddr)
+	if !ok {
+		return false
+	}
+	owner, _ := fieldAddrInfo(fa)
+	return owner != nil && owner.Obj().Name() == "Segment"
 }
